@@ -510,3 +510,26 @@ pub fn vf_filter_map_collect<'a, S, T, E, F: FnMut(&'a S) -> Option<Result<T, E>
 /// ASSUMED std contract: Result<Option<T>, E>::transpose
 pub assume_specification<T, E>[ Result::<Option<T>, E>::transpose ](r: Result<Option<T>, E>) -> (o: Option<Result<T, E>>)
     ensures o == (match r { Ok(Some(x)) => Some(Ok(x)), Ok(None) => None, Err(e) => Some(Err(e)) });
+
+// ---- R9: `RECV.map(CLOSURE)` (provided method Iterator::map) is rewritten to this helper in the getters ---------------------
+pub use vstd::std_specs::iter::IteratorSpec;
+/// ASSUMED std contract: `it.map(f)` yields, for the remaining items x of `it` in order, values related to x by the closure's
+/// (verified) ensures; the body is the very call that rule R9 replaces
+#[verifier::external_body]
+pub fn vf_iter_map<I: Iterator, B, F: FnMut(I::Item) -> B>(it: I, f: F) -> (r: std::iter::Map<I, F>)
+    requires
+        forall|x: I::Item| f.requires((x,)),
+    ensures
+        r.remaining().len() == it.remaining().len(),
+        forall|i: int| 0 <= i < it.remaining().len() ==> f.ensures((it.remaining()[i],), #[trigger] r.remaining()[i]),
+{ it.map(f) }
+/// ASSUMED (tinystr; Kani langid_leaf leaf_deref_is_text): `<TinyAsciiStr<N> as AsRef<str>>::as_ref` is the text
+pub proof fn axiom_tiny_as_ref_str<const N: usize>(t: &tinystr::TinyAsciiStr<N>)
+    ensures str_bytes(as_ref_spec::<tinystr::TinyAsciiStr<N>, str>(t)) == text(*t),
+{ admit(); }
+/// ASSUMED (std): `<str as AsRef<str>>::as_ref` is the identity
+pub proof fn axiom_as_ref_str_id()
+    ensures forall|x: &str| #[trigger] as_ref_spec::<str, str>(x) == x,
+{ admit(); }
+/// the texts of a sequence of string slices
+pub open spec fn strs(s: Seq<&str>) -> Seq<Seq<u8>> { Seq::new(s.len(), |i: int| str_bytes(s[i])) }
